@@ -796,6 +796,10 @@ pub fn owning(rng: &mut Rng) -> Program {
         (false, 1) => Entry::DefaultSpawnOwning,
         (false, _) => Entry::BuilderOwning,
     };
+    // a stopped() hook that takes a while: joins and consumes issued meanwhile wait for it
+    if g.rng.chance(1, 5) {
+        a.stopped.push(SStep::Sleep(*g.rng.pick(&[1u64, 2, 3])));
+    }
     g.prog.actors.push(a);
     g.layout(nclients);
     let mut w = W::zero();
